@@ -124,4 +124,41 @@ theorem lag_counterexample :
       ≠ twoCycles ({ run := fun s _ => [s - 1, s - 2] } : RunFn) 10 100 false := by
   decide +kernel
 
+/-! ### (4) the per-cycle barrier -/
+
+theorem cstep_noOverlap (runs : Nat) (s t : Cyc) (h : NoOverlap s) (st : CStep runs false s t) : NoOverlap t := by
+  cases st with
+  | spawn _ _ =>
+    intro c hc
+    simp only [List.mem_cons] at hc
+    rcases hc with hc | hc
+    · exact hc
+    · exact h c hc
+  | cycleEnd _ _ _ => exact h
+  | cycleEndSkipping _ _ h3 => exact absurd h3 (by decide)
+  | workerEnds c hc =>
+    intro d hd
+    exact h d (List.mem_of_mem_erase hd)
+  | release h1 h2 =>
+    intro c hc
+    simp only [h2] at hc
+    exact absurd hc List.not_mem_nil
+
+theorem reach_noOverlap (runs : Nat) (s : Cyc) (h : CReach runs false s) : NoOverlap s := by
+  induction h with
+  | init => intro c hc; exact absurd hc List.not_mem_nil
+  | step s t _ st ih => exact cstep_noOverlap runs s t ih st
+
+/-- Without the wait a run of cycle 1 is still running while a run of cycle 2 starts. -/
+theorem skip_overlaps : ∃ s, CReach 1 true s ∧ ¬ NoOverlap s := by
+  refine ⟨{ cur := 2, spawned := 1, active := [2, 1], atBarrier := false }, ?_, ?_⟩
+  · have h0 : CReach 1 true {} := CReach.init
+    have h1 := CReach.step _ _ h0 (CStep.spawn (runs := 1) (skipBarrier := true) {} rfl (by decide))
+    have h2 := CReach.step _ _ h1 (CStep.cycleEndSkipping (runs := 1) (skipBarrier := true) _ rfl rfl rfl)
+    have h3 := CReach.step _ _ h2 (CStep.spawn (runs := 1) (skipBarrier := true) _ rfl (by decide))
+    exact h3
+  · intro h
+    have := h 1 (by simp)
+    simp at this
+
 end NR.Proofs.Par
